@@ -288,8 +288,8 @@ pub fn dispatch(kind: &str, v: &Value) -> Option<Outcome> {
     }
 }
 
-pub fn run(ctx: &Ctx) -> i32 {
-    let mut st = ctx.run_replays(&dispatch);
+pub fn campaigns(ctx: &Ctx) -> Stats {
+    let mut st = Stats::default();
     let t = ctx.tier;
     // exhaustive: 3 parameters from 6 shapes, every gradient pattern in two consecutive rounds
     let ns = SHAPES.len() as u64;
@@ -325,6 +325,12 @@ pub fn run(ctx: &Ctx) -> i32 {
         let shapes: Vec<Vec<usize>> = (0..*n).map(|i| vec![1 + (i % 3)]).collect();
         Some(build(&R13 { shapes, tracked: vec![true], masks: vec![(0..*n).map(|i| m1[i % m1.len()] | 1 << (i % 5)).map(|b| if b % 5 == 0 { 0 } else { b }).collect(), (0..*n).map(|i| m2[(i * 7) % m2.len()]).collect()], lri: *lri }, None))
     }));
+    st
+}
+
+pub fn run(ctx: &Ctx) -> i32 {
+    let mut st = ctx.run_replays(&dispatch);
+    st.merge(campaigns(ctx));
     finish(
         ctx,
         st,
